@@ -104,8 +104,12 @@ def run_case(mod, case, stats, sample_every=1):
     from .interp import case_hash
 
     stats.generated += 1
+    t_case = time.monotonic()
     try:
         res = mod.check(case)
+        if os.environ.get("VERIF_SLOWLOG") and time.monotonic() - t_case > 20:
+            with open(os.environ["VERIF_SLOWLOG"], "a") as f:  # development aid
+                f.write(json.dumps({"s": round(time.monotonic() - t_case, 1), "case": case}, default=str)[:4000] + "\n")
     except Failure as f:  # oracle raised directly
         res = {"failures": [f.record()], "evaluations": 1}
     except Exception as e:  # harness bug
